@@ -291,6 +291,34 @@ def real_kinds():
     class OnlyRunAttr(object):
         run = "2023A"
 
+    class FalsyWithMethods(object):
+        """Every method, truth value False."""
+        def __len__(self):
+            return 0
+
+        def run(self, flow):
+            return [("run", tuple(flow))]
+
+        def fill(self, v):
+            self.v = v
+
+        def compute(self):
+            return [("compute", getattr(self, "v", None))]
+
+        def m(self, *args):
+            return [("m", len(args))]
+
+        def __call__(self, *args):
+            return ("called", args)
+
+    class EmptyListWithRun(list):
+        def run(self, flow):
+            return [("run", tuple(flow))]
+
+    class BoolFalse(WithCall):
+        def __bool__(self):
+            return False
+
     def gen():
         yield 1
         yield 2
@@ -301,7 +329,9 @@ def real_kinds():
             ("Variable-with-run-attribute", lambda: lena.variables.Variable("x", plus1, run="2023A")),
             ("Variable-with-fill-attribute", lambda: lena.variables.Variable("x", plus1, fill="2023A", compute=3)),
             ("callable-with-run-attribute", WithCallAndRunAttr), ("Sum-with-run-attribute", fl.sum_with_run_attribute),
-            ("only-run-attribute", OnlyRunAttr), ("iterator", lambda: iter([1, 2])), ("generator", gen), ("dict", lambda: {"a": 1}),
+            ("only-run-attribute", OnlyRunAttr),
+            ("falsy-with-methods", FalsyWithMethods), ("empty-list-with-run", EmptyListWithRun),
+            ("callable-bool-false", BoolFalse), ("empty-Sequence", lambda: lena.core.Sequence()), ("iterator", lambda: iter([1, 2])), ("generator", gen), ("dict", lambda: {"a": 1}),
             ("object", object),
             ("Sum", lena.math.Sum), ("Mean", lena.math.Mean), ("StoreFilled", lena.flow.StoreFilled),
             ("Count", lena.flow.Count), ("Slice", lambda: lena.flow.Slice(1)),
@@ -387,7 +417,8 @@ def record_real_kinds(ctx, mini, table):
                     mini.fail("real:%s:%s:raised:%s" % (adapter, arg, exc_name(exc)), (kind,), kind, {"caps": caps})
                     continue
                 # a present but non-callable attribute counts as absent (invariant AttrIsAbsent of Adapters.tla)
-                res = table.get((adapter, arg, fl.caps_sig({k: ("no" if v == "attr" else v) for k, v in caps.items()})))
+                res = table.get((adapter, arg, fl.caps_sig(dict(((k, ("no" if v == "attr" else v)) for k, v in caps.items()),
+                                                                truth=True))))
                 bind = ""
                 if ok and res is not None and res["ok"]:
                     bind = (res["f"] + "+" + res["c"]) if adapter == "FillCompute" else res["bind"]
@@ -412,13 +443,19 @@ def random_stage(rnd, alphabet):
         return {"t": "map", "f": "var", "attr": rnd.choice(["run", "fill", "compute", "request", "fill_into", "call", "reset", "all"])}
     if k == "runifdup":
         return {"t": "runifdup", "k": rnd.choice(["odd", "variable", "t"])}
+    if k == "runifseq":
+        inner = rnd.choice([[{"t": "slice", "a": 1, "b": NONE, "s": 1}], [{"t": "slice", "a": 0, "b": 1, "s": 1}],
+                            [{"t": "reverse"}], [{"t": "lagk", "k": 1}], [{"t": "lastk", "k": 1}],
+                            [{"t": "map", "f": "inc"}, {"t": "slice", "a": 0, "b": 2, "s": 1}],
+                            [{"t": "reverse"}, {"t": "slice", "a": 0, "b": 1, "s": 1}]])
+        return {"t": "runifseq", "p": rnd.choice(["even", "lt2", "all"]), "inner": inner}
     if k == "crunif":
         return {"t": "crunif", "k": rnd.choice(["odd", "variable", "t", "k"]), "f": rnd.choice(["inc", "dbl", "drop", "tag"])}
     return flowlib.random_stage(rnd, [k])
 
 
 def random_chain(rnd):
-    pre = [random_stage(rnd, ["map", "map", "filter", "slice", "slice", "runif", "cfilter", "cfilter", "crunif", "varattr", "runifdup"])
+    pre = [random_stage(rnd, ["map", "map", "filter", "slice", "slice", "runif", "cfilter", "cfilter", "crunif", "varattr", "runifdup", "runifseq", "runifseq"])
            for _ in range(rnd.randint(0, 4))]
     pre = [st for st in pre if st.get("f") != "id"]
     post = [flowlib.random_stage(rnd, ["map", "filter", "slice", "count", "sum"]) for _ in range(rnd.randint(0, 2))]
